@@ -68,7 +68,7 @@ def one_case(rng, tier, classes, cflags, force=None):
 
 
 def generate(rng, tier, scale, **focus):
-    n = (4000 if tier == 'quick' else 40000) * scale
+    n = (4000 if tier == 'quick' else 100000) * scale
     classes, cflags = M.class_table(), M.class_flags()
     for _ in range(n):
         yield one_case(rng, tier, classes, cflags, focus)
